@@ -31,7 +31,7 @@ const (
 )
 
 var FailWays = []string{"metrics-unparsable", "patch-broken-from-the-first-byte", "patch-json-truncated-tail", "patch-yaml-broken-tail",
-	"patch-invalid-document-among-valid", "patch-cannot-be-applied", "metrics-invalid-operation", "metrics-grouped-operation-without-value"}
+	"patch-invalid-document-among-valid", "patch-cannot-be-applied", "metrics-invalid-operation", "metrics-grouped-operation-without-value", "admission-response-unparsable", "conversion-response-unparsable", "admission-response-two-documents"}
 
 // OutputFiles: the files of a Finish action; way < 0: a succeeding hook's valid outputs.
 func OutputFiles(way, n int) map[string]string {
@@ -51,6 +51,12 @@ func OutputFiles(way, n int) map[string]string {
 		return map[string]string{"KUBERNETES_PATCH_PATH": valid + "\n" + `{"operation":"MergePatch","kind":"ConfigMap","namespace":"default","name":"absent-object","mergePatch":{"data":{"a":"b"}}}` + "\n"}
 	case 6:
 		return map[string]string{"METRICS_PATH": fmt.Sprintf(validMetricLine, n) + "\n" + `{"name":"opsim_out","group":"g","action":"nosuchaction","value":1}` + "\n"}
+	case 8:
+		return map[string]string{"ADMISSION_RESPONSE_PATH": `{"allowed": tru`, "METRICS_PATH": fmt.Sprintf(validMetricLine, n) + "\n"}
+	case 9:
+		return map[string]string{"CONVERSION_RESPONSE_PATH": `{"convertedObjects": [ {`, "KUBERNETES_PATCH_PATH": valid + "\n"}
+	case 10:
+		return map[string]string{"VALIDATING_RESPONSE_PATH": `{"allowed":true}` + "\n" + `{"allowed":false,"message":"denied"}` + "\n"}
 	case 7:
 		return map[string]string{"METRICS_PATH": fmt.Sprintf(validMetricLine, n) + "\n" + `{"name":"opsim_grouped","group":"g","action":"set","labels":{"l":"v"}}` + "\n"}
 	}
